@@ -118,6 +118,64 @@ def genReqs (n : Nat) : List HReq :=
     let j := i + 1
     { tag := s!"r{j}", path := s!"/s{j % 97}/t{j % 89}/u{j}", script := "s200.bx1", truth := "r200" }
 
+
+/-! redirect chains (`c:302p>302u>r200`, harness/cmd/c10/round3.go) -/
+
+inductive HopTok where
+  | ans (st : Nat) (loc : Char)
+  | term (tok : String)
+
+def parseHopTok (t : String) : HopTok :=
+  match t.toList.getLast? with
+  | some c =>
+    if c == 'p' || c == 'n' || c == 'u' || c == 'l' then
+      match (String.ofList t.toList.dropLast).toNat? with
+      | some st => .ans st c
+      | none => .term t
+    else .term t
+  | none => .term t
+
+/-- `some hops` when the truth field describes a chain -/
+def parseChain (truth : String) : Option (List HopTok) :=
+  if "c:".toList.isPrefixOf truth.toList then
+    some (((String.ofList (truth.toList.drop 2)).splitOn ">").map parseHopTok)
+  else none
+
+/-- outcome (model) and ground truth (Spec) of ONE exchange from the script's truth token, the error shape the real gun
+recorded and the status it reported (a body broken by a reset may also lose the head) -/
+def termOutcome (tok script : String) (obsProto : Nat) (shape : Err) : HttpOutcome × Truth :=
+  match natAfter "rbx" tok, natAfter "rb" tok, natAfter "r" tok with
+  | some st, _, _ =>
+    if obsProto == st then (.response st (some shape), .bodyBroken st) else (.doErr shape, .failed)
+  | none, some st, _ => (.response st (some shape), .bodyBroken st)
+  | none, none, some st => (.response st none, .received st)
+  | none, none, none => (.doErr shape, if script == "acthang" then .timedOut else .failed)
+
+def modelLoc (c : Char) : Model.C10.Loc :=
+  if c == 'p' then .leadsOn else if c == 'u' then .unparsable else if c == 'l' then .loops else .absent
+
+def specLoc (c : Char) : Spec.C10.Loc :=
+  if c == 'p' then .leadsOn else if c == 'u' then .unparsable else if c == 'l' then .loops else .absent
+
+/-- (model outcome, Spec truth) of a request: a single exchange, or a chain run through the client `redirect` selects -/
+def reqOutcome (redirect : Bool) (truth script : String) (obsProto : Nat) (shape : Err) : HttpOutcome × Truth :=
+  match parseChain truth with
+  | none => termOutcome truth script obsProto shape
+  | some toks =>
+    let mh : List Hop := toks.map fun t => match t with
+      | .ans st c => .answer st (modelLoc c)
+      | .term tok => .last (termOutcome tok script obsProto shape).1
+    let sh : List Spec.C10.ChainHop := toks.map fun t => match t with
+      | .ans st c => .answer st (specLoc c)
+      | .term tok => .last (termOutcome tok script obsProto shape).2
+    (clientDo redirect mh, Spec.C10.chainTruth redirect sh)
+
+def outcomeShape : HttpOutcome → String
+  | .response _ none => "nil"
+  | .response _ (some e) => printShape e
+  | .doErr e => printShape e
+  | .doPanic => "nil"
+
 def handleHttp (kv : List (String × String)) (impl : String) : String × String :=
   let cfg : AutoTagCfg := { enabled := getS kv "auto" == "1", uriElements := (getN? kv "el").getD 0, noTagOnly := getS kv "nto" == "1" }
   let parsedReqs : Option (List HReq) := match getN? kv "gen" with
@@ -137,19 +195,12 @@ def handleHttp (kv : List (String × String)) (impl : String) : String × String
         let mine := obs.filter (·.id == i + 1)
         let o1 := mine.head?
         let shape := ((o1.bind fun o => parseShape o.shape).getD .other)
-        -- outcome and ground truth from the script's truth token
+        -- outcome and ground truth from the script's truth token (a single exchange or a redirect chain)
         let (outcome, truth) : HttpOutcome × Truth :=
-          match natAfter "rbx" r.truth, natAfter "rb" r.truth, natAfter "r" r.truth with
-          | some st, _, _ =>
-            if (o1.map (·.proto)).getD 0 == st then (.response st (some shape), .bodyBroken st) else (.doErr shape, .failed)
-          | none, some st, _ => (.response st (some shape), .bodyBroken st)
-          | none, none, some st => (.response st none, .received st)
-          | none, none, none => (.doErr shape, if r.script == "acthang" then .timedOut else .failed)
+          reqOutcome (getS kv "redir" == "1") r.truth r.script ((o1.map (·.proto)).getD 0) shape
         let shot : HttpShot := { ammoTag := r.tag, id := i + 1, path := r.path, outcome := outcome }
         let rep := (shootHttp cfg shot).reports
-        let shp := match outcome with
-          | .response _ none => "nil"
-          | _ => printShape shape
+        let shp := outcomeShape outcome
         let line := rep.map fun s => fmtSample true s shp
         let exp := Spec.C10.expectedTag cfg.enabled cfg.uriElements cfg.noTagOnly r.tag r.path
         (line, Spec.C10.judgeHttp exp truth (mine.map ObsS.toObs))
@@ -198,6 +249,7 @@ structure SStep where
   name : String
   truth : String
   pp : String
+  deriving Inhabited
 
 def parseSStep (s : String) : Option SStep :=
   match s.splitOn "," with
@@ -209,37 +261,64 @@ def postOfAssert (pp : String) (status : Nat) : PostRes :=
   | some c => if c != 0 && c != status then .err else .ok
   | none => .ok
 
-def stepOutcome (s : SStep) : StepOutcome :=
+def stepOutcome (redirect : Bool) (s : SStep) : StepOutcome :=
   if s.pp == "tpl" then .prepErr
-  else match natAfter "rbx" s.truth, natAfter "rb" s.truth, natAfter "r" s.truth with
-    | some st, _, _ => .bodyErr st .other
-    | none, some st, _ => .bodyErr st .other
-    | none, none, some st => .received st (postOfAssert s.pp st)
-    | none, none, none => .doErr .other
+  else match (reqOutcome redirect s.truth "" 0 .other).1 with
+    | .response st none => .received st (postOfAssert s.pp st)
+    | .response st (some _) => .bodyErr st .other
+    | _ => .doErr .other
 
-def stepTruth (s : SStep) : StepTruth :=
-  match stepOutcome s with
-  | .received st .ok => .passed st
-  | _ => .failedStep
+/-- ground truth of a step, from the Spec's reading of the chain: passed with the status received when every assertion
+accepts it, failed otherwise -/
+def stepTruth (redirect : Bool) (s : SStep) : StepTruth :=
+  if s.pp == "tpl" then .failedStep
+  else match (reqOutcome redirect s.truth "" 0 .other).2 with
+    | .received st => if postOfAssert s.pp st == .ok then .passed st else .failedStep
+    | _ => .failedStep
+
+/-- `hits=st0:1,st1:0`: how many requests of each step the target saw -/
+def parseHits (s : String) : List (String × Nat) :=
+  (splitList s ",").filterMap fun e =>
+    match e.splitOn ":" with
+    | [n, c] => c.toNat?.map fun k => (n, k)
+    | _ => none
+
+/-- number of leading steps the target saw at least once -/
+def seenPrefix : List (String × Nat) → Nat
+  | [] => 0
+  | (_, k) :: rest => if k == 0 then 0 else 1 + seenPrefix rest
 
 def replicate {α} (n : Nat) (l : List α) : List α := (List.replicate n l).flatten
 
 def handleScn (kv : List (String × String)) (impl : String) : String × String :=
   match (splitList (getS kv "steps") ";").mapM parseSStep with
   | none => ("-", "fail:driver:unparsable steps")
-  | some steps =>
+  | some steps0 =>
     let scn := getS kv "scn"
     let n := (getN? kv "n").getD 1
-    let shot := shootScenario scn (steps.map fun s => { name := s.name, outcome := stepOutcome s })
-    let one := shot.reports.map fun s => fmtSample false s (if s.net == 0 then "nil" else "other")
+    let redirect := getS kv "redir" == "1"
     let ikv := parseKV impl
+    let noted := getS kv "hits" == "1" || getS kv "cxl" != ""
+    let hits := parseHits (getS ikv "hits")
+    -- a run cut short by a cancellation (`cxl`): the steps the shot executed are the ones the target saw (a prefix)
+    let steps := if getS kv "cxl" != "" then steps0.take (seenPrefix hits) else steps0
+    let shot := shootScenario scn (steps.map fun s => { name := s.name, outcome := stepOutcome redirect s })
+    let one := shot.reports.map fun s => fmtSample false s (if s.net == 0 then "nil" else "other")
+    let hitsField := if !noted then "" else
+      " hits=" ++ String.intercalate "," (if getS kv "cxl" != "" then hits.map fun (nm, k) => s!"{nm}:{k}"
+        else
+          let ex := (shootScenario scn (steps0.map fun s => { name := s.name, outcome := stepOutcome redirect s })).reports.length
+          (List.range steps0.length).map fun i => s!"{(steps0[i]!).name}:{if i < ex then n else 0}")
     match parseSamples false (getS ikv "s") with
-    | none => (fmtLine "ok" (replicate n one), s!"fail:crash:unparsable observation {impl.take 120}")
+    | none => (fmtLine "ok" (replicate n one) ++ hitsField, s!"fail:crash:unparsable observation {impl.take 120}")
     | some obs =>
       let res := getS ikv "res"
+      let vHits := if noted && !(steps0.any fun s => s.pp == "tpl") then
+          (Spec.C10.hitsMismatch scn (obs.map ObsS.toObs) hits).getD "ok"
+        else "ok"
       let v := if res != "ok" then s!"fail:run:{res}"
-               else Spec.C10.judgeShots scn (steps.map fun s => (s.name, stepTruth s)) n (obs.map ObsS.toObs)
-      (fmtLine "ok" (replicate n one), v)
+               else firstFail [vHits, Spec.C10.judgeShots scn (steps.map fun s => (s.name, stepTruth redirect s)) n (obs.map ObsS.toObs)]
+      (fmtLine "ok" (replicate n one) ++ hitsField, v)
 
 /-! k=grpc, k=grpcscn, k=grpcdirect -/
 
@@ -285,17 +364,19 @@ def handleGrpcDirect (kv : List (String × String)) (impl : String) : String × 
   | _, _ => ("-", "fail:driver:unparsable input")
 
 structure GCall where
+  name : String
   tag : String
   kind : String
   code : Nat
   pp : String
+  deriving Inhabited
 
 def parseGCall (s : String) : Option GCall :=
   match s.splitOn "," with
-  | [_name, tag, kind, code, pp] => do
+  | [name, tag, kind, code, pp] => do
     let c ← code.toNat?
     if ["ok", "code", "gone", "nomethod", "badpayload", "tpl"].contains kind then
-      pure { tag := tag, kind := kind, code := c, pp := pp }
+      pure { name := name, tag := tag, kind := kind, code := c, pp := pp }
     else none
   | _ => none
 
@@ -332,16 +413,28 @@ def handleGrpcScn (kv : List (String × String)) (impl : String) : String × Str
   | some calls =>
     let scn := getS kv "scn"
     let n := (getN? kv "n").getD 1
-    let shots := allShots calls n false
-    let line := shots.flatMap fun steps => (shootGrpcScenario scn steps).reports.map fun s => fmtSample false s "nil"
     let ikv := parseKV impl
+    let noted := getS kv "hits" == "1" || getS kv "cxl" != ""
+    let hits := parseHits (getS ikv "hits")
+    let shots0 := allShots calls n false
+    -- a run cut short by a cancellation: the calls the shot executed are the ones the target saw (a prefix)
+    let shots := if getS kv "cxl" != "" then shots0.map (·.take (seenPrefix hits)) else shots0
+    let line := shots.flatMap fun steps => (shootGrpcScenario scn steps).reports.map fun s => fmtSample false s "nil"
+    let hitsField := if !noted then "" else
+      " hits=" ++ String.intercalate "," (if getS kv "cxl" != "" then hits.map fun (nm, k) => s!"{nm}:{k}"
+        else (List.range calls.length).map fun i =>
+          s!"{(calls[i]!).name}:{(shots0.filter fun steps => i < steps.length).length}")
     match parseSamples false (getS ikv "s") with
-    | none => (fmtLine "ok" line, s!"fail:crash:unparsable observation {impl.take 120}")
+    | none => (fmtLine "ok" line ++ hitsField, s!"fail:crash:unparsable observation {impl.take 120}")
     | some obs =>
       let res := getS ikv "res"
+      let sent := calls.all fun c => c.kind == "ok" || c.kind == "code"
+      let tagHits : List (String × Nat) := (List.range calls.length).filterMap fun i =>
+        (hits[i]?).map fun h => ((calls[i]!).tag, h.2)
+      let vHits := if noted && sent then (Spec.C10.hitsMismatchGrpc scn (obs.map ObsS.toObs) tagHits).getD "ok" else "ok"
       let v := if res != "ok" then s!"fail:run:{res}"
-               else Spec.C10.judgeGrpc (shots.flatMap fun steps => steps.map (grpcStepTruth scn)) (obs.map ObsS.toObs)
-      (fmtLine "ok" line, v)
+               else firstFail [vHits, Spec.C10.judgeGrpc (shots.flatMap fun steps => steps.map (grpcStepTruth scn)) (obs.map ObsS.toObs)]
+      (fmtLine "ok" line ++ hitsField, v)
 
 /-! k=ids, k=errno, k=inv -/
 
